@@ -52,7 +52,7 @@
 use std::cell::{Cell, RefCell};
 use std::collections::HashSet;
 use std::sync::atomic::{AtomicU64, Ordering};
-use std::sync::{Arc, Condvar, Mutex, MutexGuard};
+use std::sync::{Arc, Mutex, MutexGuard};
 use std::time::{Duration, Instant};
 
 use roto::verif::{ListEvent, set_list_hook};
@@ -486,7 +486,26 @@ struct Sched {
     shared: [usize; 2],
     full_points: bool,
     obj_len: [usize; 2],
+    /// start-up phase: parking threads report to the controller instead of deciding
+    startup: bool,
+    /// replayed choices, then `policy`
+    prefix: Vec<u8>,
+    policy: Policy,
+    steps: Vec<Step>,
+    /// set when the schedule is over
+    outcome: Option<Outcome>,
+    /// start-up: the programs not yet picked up, and whose turn it is
+    jobs: Vec<Option<Job>>,
+    start_turn: usize,
+    /// id of the valid pool thread of every slot (0 = none)
+    pool_id: [u64; MAX_THREADS],
+    next_pool_id: u64,
+    /// whom to unpark: the pool threads and the controller
+    handles: [Option<std::thread::Thread>; MAX_THREADS],
+    controller: Option<std::thread::Thread>,
 }
+// SAFETY: `Probe` is Send (see there), `Job` is Send; nothing else is thread-bound.
+unsafe impl Send for Sched {}
 
 static SCHED: Mutex<Sched> = Mutex::new(Sched {
     generation: 0,
@@ -503,10 +522,120 @@ static SCHED: Mutex<Sched> = Mutex::new(Sched {
     shared: [0, 0],
     full_points: false,
     obj_len: [0, 0],
+    startup: true,
+    prefix: Vec::new(),
+    policy: Policy::Lowest,
+    steps: Vec::new(),
+    outcome: None,
+    jobs: Vec::new(),
+    start_turn: usize::MAX,
+    pool_id: [0; MAX_THREADS],
+    next_pool_id: 0,
+    handles: [None, None, None, None],
+    controller: None,
 });
-static CV: Condvar = Condvar::new();
+const MAX_THREADS: usize = 4;
+
+/// Hand-off. All scheduler state lives under the one mutex `SCHED`; a thread that has
+/// to wait releases the mutex and blocks in `std::thread::park()`, re-checking its
+/// condition under the mutex after every wake-up (park tokens make lost wake-ups
+/// impossible, spurious ones are harmless). Whoever changes the state unparks the
+/// thread concerned AFTER releasing the mutex (`send`), so that the woken thread does
+/// not run into a held mutex.
+#[derive(Clone, Copy, PartialEq, Eq)]
+enum Wake {
+    Nobody,
+    Thread(usize),
+    Controller,
+    /// every controlled thread (abandon / watchdog)
+    AllThreads,
+}
+
+fn send(s: MutexGuard<'static, Sched>, w: Wake) {
+    match w {
+        Wake::Nobody => {}
+        Wake::Thread(t) => {
+            let h = s.handles[t].clone();
+            drop(s);
+            if let Some(h) = h {
+                h.unpark();
+            }
+        }
+        Wake::Controller => {
+            let h = s.controller.clone();
+            drop(s);
+            if let Some(h) = h {
+                h.unpark();
+            }
+        }
+        Wake::AllThreads => {
+            let hs = s.handles.clone();
+            drop(s);
+            for h in hs.into_iter().flatten() {
+                h.unpark();
+            }
+        }
+    }
+}
+
+/// Controlled threads are pooled: pool thread `t` executes the program of logical
+/// thread `t` of one schedule after the other (every schedule still starts from a
+/// fresh state: fresh lists, fresh handles, fresh scheduler state). A thread that was
+/// leaked or abandoned is dropped from the pool (its id is invalidated) and replaced.
+type Job = Box<dyn FnOnce() + Send + 'static>;
+
+fn pool_thread(t: usize, id: u64) {
+    loop {
+        let job = loop {
+            let mut s = lock_sched();
+            if s.pool_id[t] != id {
+                return;
+            }
+            if s.start_turn == t && s.jobs.get(t).is_some_and(|j| j.is_some()) {
+                // start-up phase: it is this thread's turn to run up to its first hook point
+                s.threads[t].state = TState::Running;
+                s.running = Some(t);
+                break s.jobs[t].take().unwrap();
+            }
+            drop(s);
+            std::thread::park();
+        };
+        job();
+    }
+}
+
+fn pool_ensure(s: &mut Sched, t: usize) {
+    if s.pool_id[t] == 0 {
+        s.next_pool_id += 1;
+        let id = s.next_pool_id;
+        s.pool_id[t] = id;
+        let jh = std::thread::Builder::new()
+            .name(format!("sched-T{t}"))
+            .stack_size(1 << 20)
+            .spawn(move || pool_thread(t, id))
+            .expect("spawn controlled thread");
+        s.handles[t] = Some(jh.thread().clone());
+    }
+}
+
+/// End of a thread's start-up step: start the next thread, or take the first decision.
+#[must_use]
+fn advance_startup(s: &mut Sched, caller: usize) -> Wake {
+    s.start_turn += 1;
+    if s.start_turn < s.threads.len() {
+        Wake::Thread(s.start_turn)
+    } else {
+        s.startup = false;
+        s.start_turn = usize::MAX;
+        decide(s, Some(caller))
+    }
+}
+
 /// threads leaked by this process (blocked forever below JIT frames / abandoned)
 static LEAKED: AtomicU64 = AtomicU64::new(0);
+/// `--selftest hang`  (1): thread 0 never returns from its first `len` (watchdog path);
+/// `--selftest model` (2): the model's swap does nothing (the oracle must object).
+static SELFTEST: AtomicU64 = AtomicU64::new(0);
 
 thread_local! {
     /// (generation, logical thread index) of a controlled thread
@@ -536,8 +665,7 @@ fn bail(mut s: MutexGuard<'static, Sched>, me: usize) -> ! {
     if IN_SCRIPT.with(|c| c.get()) {
         // JIT frames below us: unwinding is impossible, stay parked forever
         s.threads[me].leaked = true;
-        CV.notify_all();
-        drop(s);
+        send(s, Wake::Controller);
         block_forever()
     } else {
         drop(s);
@@ -549,7 +677,17 @@ fn bail(mut s: MutexGuard<'static, Sched>, me: usize) -> ! {
 fn park(mut s: MutexGuard<'static, Sched>, generation: u64, me: usize, point: Point) {
     s.threads[me].state = TState::Parked(point);
     s.running = None;
-    CV.notify_all();
+    let w = if s.startup {
+        advance_startup(&mut s, me)
+    } else {
+        // nobody runs now: take the scheduling decision right here (if this thread is
+        // chosen again it continues without any context switch)
+        decide(&mut s, Some(me))
+    };
+    if w != Wake::Nobody {
+        send(s, w);
+        s = lock_sched();
+    }
     loop {
         if s.generation != generation {
             // the schedule was abandoned by the watchdog: never touch anything again
@@ -562,7 +700,9 @@ fn park(mut s: MutexGuard<'static, Sched>, generation: u64, me: usize, point: Po
         if matches!(s.threads[me].state, TState::Running) {
             break;
         }
-        s = CV.wait(s).unwrap_or_else(|e| e.into_inner());
+        drop(s);
+        std::thread::park();
+        s = lock_sched();
     }
     // the first time a thread is scheduled inside an operation is its invocation
     if !s.threads[me].op_started {
@@ -688,7 +828,14 @@ fn exec_act<E: SElem>(h: &mut Handles<E>, act: Act, fns: &Option<Arc<SFns<E>>>) 
                 Res::Bool(f.eq.call(p, q))
             })
         }
-        Act::Len { obj } => Res::Num(h.h(obj).len() as u64),
+        Act::Len { obj } => {
+            if SELFTEST.load(Ordering::Relaxed) == 1 && ME.with(|m| m.get()).is_some_and(|m| m.1 == 0) {
+                loop {
+                    std::thread::sleep(Duration::from_secs(3600));
+                }
+            }
+            Res::Num(h.h(obj).len() as u64)
+        }
         Act::CloneH => {
             let c = h.h(0).clone();
             h.extra.push(c);
@@ -707,25 +854,6 @@ fn exec_act<E: SElem>(h: &mut Handles<E>, act: Act, fns: &Option<Arc<SFns<E>>>) 
 
 fn thread_main<E: SElem>(generation: u64, me: usize, prog: Vec<Act>, mut h: Handles<E>, fns: Option<Arc<SFns<E>>>) {
     ME.with(|m| m.set(Some((generation, me))));
-    // wait for the first scheduling (start-up phase of the controller)
-    {
-        let mut s = lock_sched();
-        loop {
-            if s.generation != generation {
-                drop(s);
-                block_forever();
-            }
-            if s.abort {
-                s.threads[me].exited = true;
-                CV.notify_all();
-                return;
-            }
-            if matches!(s.threads[me].state, TState::Running) {
-                break;
-            }
-            s = CV.wait(s).unwrap_or_else(|e| e.into_inner());
-        }
-    }
     let r = crate::work::catch(|| {
         for (i, act) in prog.iter().enumerate() {
             {
@@ -778,26 +906,34 @@ fn thread_main<E: SElem>(generation: u64, me: usize, prog: Vec<Act>, mut h: Hand
         }
     });
     drop(h);
+    ME.with(|m| m.set(None));
+    IN_SCRIPT.with(|c| c.set(false));
     let mut s = lock_sched();
     if s.generation != generation {
         return;
     }
+    s.threads[me].exited = true;
+    let was_running = !s.abort;
     match r {
-        Ok(()) => {
-            s.threads[me].state = TState::Finished;
-            s.running = None;
-        }
+        Ok(()) => s.threads[me].state = TState::Finished,
         Err(msg) => {
             if !s.abort {
                 // a genuine panic of the code under test while this thread was running
                 s.threads[me].panic = Some(msg);
                 s.threads[me].state = TState::Finished;
-                s.running = None;
             }
         }
     }
-    s.threads[me].exited = true;
-    CV.notify_all();
+    let mut w = Wake::Nobody;
+    if was_running {
+        s.running = None;
+        w = if s.startup { advance_startup(&mut s, me) } else { decide(&mut s, Some(me)) };
+    }
+    if s.abort {
+        // the controller waits for the threads to leave
+        w = Wake::Controller;
+    }
+    send(s, w);
 }
 
 // ---------------------------------------------------------------------------
@@ -841,39 +977,142 @@ struct SchedOut {
 
 const WATCHDOG: Duration = Duration::from_secs(10);
 
-/// Wait until no controlled thread is running.
-fn wait_idle(deadline: Instant) -> Result<MutexGuard<'static, Sched>, String> {
-    let mut s = lock_sched();
-    while s.running.is_some() {
+/// The scheduling decision. Runs under the scheduler mutex at a moment when NO
+/// controlled thread is running (every one is parked or finished): on the thread that
+/// just parked / finished, or on the controller after the start-up phase. Either
+/// hands the (single) right to run to one enabled thread, or ends the schedule by
+/// setting `outcome` (the controller then collects the results / abandons the threads).
+#[must_use]
+fn decide(s: &mut Sched, caller: Option<usize>) -> Wake {
+    debug_assert!(s.running.is_none());
+    if s.outcome.is_some() {
+        return Wake::Controller;
+    }
+    let n = s.threads.len();
+    let mut fail: Option<Outcome> = None;
+    if let Some((t, msg)) = s.threads.iter().enumerate().find_map(|(t, th)| th.panic.clone().map(|m| (t, m))) {
+        fail = Some(Outcome::Panic(t, msg));
+    } else if let Some(st) = s.stale.clone() {
+        fail = Some(Outcome::Stale(st));
+    }
+    let mut mask = 0u8;
+    let mut unfinished = 0;
+    if fail.is_none() {
+        for t in 0..n {
+            match s.threads[t].state {
+                TState::Parked(Point::Lock { probe, .. }) => {
+                    unfinished += 1;
+                    // SAFETY: thread t is parked inside the hook callback that owns the
+                    // closure (if t is the calling thread: it is inside that callback)
+                    if unsafe { (*probe.0)() } {
+                        mask |= 1 << t;
+                    }
+                }
+                TState::Parked(Point::Escaped) => {
+                    unfinished += 1;
+                    mask |= 1 << t;
+                }
+                TState::Finished => {}
+                TState::NotStarted | TState::Running => {
+                    fail = Some(Outcome::Diverged(format!("internal: thread T{t} in an impossible state")));
+                }
+            }
+        }
+    }
+    if fail.is_none() && unfinished == 0 {
+        s.outcome = Some(Outcome::Complete);
+        return Wake::Controller;
+    }
+    let lname = |s: &Sched, l: usize| if l == s.shared[0] { "a" } else if l == s.shared[1] { "b" } else { "private" };
+    if fail.is_none() && mask == 0 {
+        // deadlock: every unfinished thread waits for a mutex that is not free
+        let mut blocked = Vec::new();
+        let mut holders = Vec::new();
+        for t in 0..n {
+            if let TState::Parked(Point::Lock { list, .. }) = s.threads[t].state {
+                let act = s.threads[t].cur_act;
+                let label = act.map(|a| a.label()).unwrap_or_default();
+                let held: Vec<&str> = s.threads[t].woken_locks.iter().map(|l| lname(s, *l)).collect();
+                blocked.push((t, label.clone(), format!("acquired {held:?} in this operation, waits for {}", lname(s, list))));
+                // a thread that waits while it keeps a shared lock is part of the cycle
+                // (only `==` keeps its first lock while it takes the second)
+                if matches!(act, Some(Act::Eq { .. })) && !s.threads[t].woken_locks.is_empty() {
+                    holders.push(label);
+                }
+            }
+        }
+        if holders.is_empty() {
+            holders = blocked.iter().map(|b| b.1.clone()).collect();
+        }
+        holders.sort();
+        holders.dedup();
+        fail = Some(Outcome::Deadlock { sig_ops: holders, blocked });
+    }
+    let mut chosen = 0u8;
+    if fail.is_none() {
+        let step = s.steps.len();
+        if step < s.prefix.len() {
+            chosen = s.prefix[step];
+            if mask & (1 << chosen) == 0 {
+                fail = Some(Outcome::Diverged(format!("replay diverged at step {step}: T{chosen} not enabled (enabled mask {mask:#b})")));
+            }
+        } else {
+            chosen = match &mut s.policy {
+                Policy::Lowest => mask.trailing_zeros() as u8,
+                Policy::Random(rng) => {
+                    let k = rng.below(mask.count_ones() as u64);
+                    let mut m = mask;
+                    for _ in 0..k {
+                        m &= m - 1;
+                    }
+                    m.trailing_zeros() as u8
+                }
+            };
+        }
+    }
+    if let Some(f) = fail {
+        s.outcome = Some(f);
+        return Wake::Controller;
+    }
+    let c = chosen as usize;
+    let point = match s.threads[c].state {
+        TState::Parked(Point::Lock { list, .. }) => {
+            if list == s.shared[0] {
+                0
+            } else if list == s.shared[1] {
+                1
+            } else {
+                2
+            }
+        }
+        _ => 3,
+    };
+    let op = s.threads[c].cur_op;
+    s.steps.push(Step { mask, chosen, op, point });
+    s.threads[c].state = TState::Running;
+    s.running = Some(c);
+    // (the caller itself notices that it was chosen when it looks at its state)
+    if caller == Some(c) { Wake::Nobody } else { Wake::Thread(c) }
+}
+
+/// Controller: wait until `cond` holds (with the watchdog deadline).
+fn wait_for(mut s: MutexGuard<'static, Sched>, deadline: Instant, cond: impl Fn(&Sched) -> bool) -> Result<MutexGuard<'static, Sched>, String> {
+    while !cond(&s) {
         let now = Instant::now();
         if now >= deadline {
-            return Err(format!("thread T{} neither parked nor finished", s.running.unwrap()));
+            return Err(match s.running {
+                Some(t) => format!("thread T{t} neither parked nor finished"),
+                None => "the schedule made no progress".to_string(),
+            });
         }
-        let (g, _) = CV.wait_timeout(s, deadline - now).unwrap_or_else(|e| e.into_inner());
-        s = g;
+        drop(s);
+        std::thread::park_timeout(deadline - now);
+        s = lock_sched();
     }
     Ok(s)
 }
 
-/// Abandon the current schedule: every parked thread leaves (unwinds or is leaked).
-fn abandon(mut s: MutexGuard<'static, Sched>) -> Result<u64, String> {
-    s.abort = true;
-    CV.notify_all();
-    let deadline = Instant::now() + WATCHDOG;
-    loop {
-        if s.threads.iter().all(|t| t.exited || t.leaked) {
-            return Ok(s.threads.iter().filter(|t| t.leaked).count() as u64);
-        }
-        let now = Instant::now();
-        if now >= deadline {
-            return Err("threads did not leave an abandoned schedule".into());
-        }
-        let (g, _) = CV.wait_timeout(s, deadline - now).unwrap_or_else(|e| e.into_inner());
-        s = g;
-    }
-}
-
-fn run_schedule<E: SElem>(cfg: &Config, acts: &[Vec<Act>], fns: &Option<Arc<SFns<E>>>, prefix: &[u8], policy: &mut Policy, full_points: bool) -> SchedOut {
+fn run_schedule<E: SElem>(cfg: &Config, acts: &[Vec<Act>], fns: &Option<Arc<SFns<E>>>, prefix: &[u8], policy: Policy, full_points: bool) -> SchedOut {
     let n = acts.len();
     // fresh lists
     let a: List<E> = (0..cfg.init_len).map(|i| E::mk(1 + i as u64)).collect();
@@ -900,8 +1139,14 @@ fn run_schedule<E: SElem>(cfg: &Config, acts: &[Vec<Act>], fns: &Option<Arc<SFns
     let generation = {
         let mut s = lock_sched();
         s.generation += 1;
+        s.controller = Some(std::thread::current());
         s.abort = false;
+        s.startup = true;
         s.running = None;
+        s.outcome = None;
+        s.steps = Vec::new();
+        s.prefix = prefix.to_vec();
+        s.policy = policy;
         s.threads = (0..n)
             .map(|_| ThreadSt {
                 state: TState::NotStarted,
@@ -927,184 +1172,89 @@ fn run_schedule<E: SElem>(cfg: &Config, acts: &[Vec<Act>], fns: &Option<Arc<SFns
         s.obj_len = [cfg.init_len, cfg.init_len];
         s.generation
     };
-    // fresh threads
-    let mut joins = Vec::new();
-    for (t, prog) in acts.iter().enumerate() {
-        let h = Handles { a: a.clone(), b: b.clone(), extra: Vec::new() };
-        let prog = prog.clone();
-        let fns = fns.clone();
-        let jh = std::thread::Builder::new()
-            .name(format!("sched-T{t}"))
-            .stack_size(1 << 20)
-            .spawn(move || thread_main::<E>(generation, t, prog, h, fns))
-            .expect("spawn controlled thread");
-        joins.push(jh);
-    }
     let deadline = Instant::now() + WATCHDOG;
-    let watchdog = |out: &mut SchedOut, why: String, joins: Vec<std::thread::JoinHandle<()>>| {
+    let watchdog = |out: &mut SchedOut, why: String| {
         // abandon everything: bump the generation so that stragglers pass through
+        // (running ones) or block forever (parked ones); none of them is reused
         let mut s = lock_sched();
         s.generation += 1;
         s.running = None;
-        CV.notify_all();
+        s.start_turn = usize::MAX;
+        s.jobs.clear();
+        out.steps = std::mem::take(&mut s.steps);
+        let mut gone = Vec::new();
+        for t in 0..n {
+            s.pool_id[t] = 0;
+            gone.push(s.handles[t].take());
+        }
         drop(s);
-        LEAKED.fetch_add(joins.len() as u64, Ordering::SeqCst);
-        drop(joins); // detached
+        for h in gone.into_iter().flatten() {
+            h.unpark();
+        }
+        LEAKED.fetch_add(n as u64, Ordering::SeqCst);
         out.outcome = Outcome::Watchdog(why);
     };
-    // start-up: run every thread up to its first hook point, one at a time (the code
-    // before the first hook point is thread-local, no decision is involved)
-    for t in 0..n {
-        {
-            let mut s = lock_sched();
-            s.threads[t].state = TState::Running;
-            s.running = Some(t);
-            CV.notify_all();
+    // Fresh handles, fresh thread state (the OS threads come from the pool). Start-up:
+    // every thread runs up to its first hook point, one at a time in index order (the
+    // code before the first hook point is thread-local, no decision is involved); the
+    // last one takes the first decision. From then on the threads pass the right to run
+    // among themselves (`decide`) and the controller only waits for the outcome.
+    let s = {
+        let mut s = lock_sched();
+        let mut jobs: Vec<Option<Job>> = Vec::new();
+        for (t, prog) in acts.iter().enumerate() {
+            let h = Handles { a: a.clone(), b: b.clone(), extra: Vec::new() };
+            let prog = prog.clone();
+            let fns = fns.clone();
+            jobs.push(Some(Box::new(move || thread_main::<E>(generation, t, prog, h, fns))));
+            pool_ensure(&mut s, t);
         }
-        if let Err(why) = wait_idle(deadline) {
-            watchdog(&mut out, why, joins);
+        s.jobs = jobs;
+        s.start_turn = 0;
+        send(s, Wake::Thread(0));
+        lock_sched()
+    };
+    let mut s = match wait_for(s, deadline, |s| s.outcome.is_some()) {
+        Ok(s) => s,
+        Err(why) => {
+            watchdog(&mut out, why);
+            return out;
+        }
+    };
+    out.outcome = s.outcome.clone().unwrap_or(Outcome::Complete);
+    out.steps = std::mem::take(&mut s.steps);
+    out.hist = s.hist.clone();
+    out.events = s.events;
+    out.releases = s.releases;
+    out.hazards = s.hazards.clone();
+    // every thread leaves: finished ones have left already, parked ones unwind or
+    // (below JIT frames) are leaked
+    s.abort = true;
+    let everybody_left = s.threads.iter().all(|t| t.exited);
+    if !everybody_left {
+        send(s, Wake::AllThreads);
+        s = lock_sched();
+    }
+    match wait_for(s, Instant::now() + WATCHDOG, |s| s.threads.iter().all(|t| t.exited || t.leaked)) {
+        Ok(s) => {
+            let mut s = s;
+            for t in 0..n {
+                if s.threads[t].leaked {
+                    out.leaked += 1;
+                    s.pool_id[t] = 0;
+                    s.handles[t] = None;
+                }
+            }
+        }
+        Err(why) => {
+            watchdog(&mut out, why);
             return out;
         }
     }
-    let mut step = 0usize;
-    loop {
-        let mut s = match wait_idle(Instant::now() + WATCHDOG) {
-            Ok(s) => s,
-            Err(why) => {
-                watchdog(&mut out, why, joins);
-                return out;
-            }
-        };
-        let mut fail: Option<Outcome> = None;
-        if let Some((t, msg)) = s.threads.iter().enumerate().find_map(|(t, th)| th.panic.clone().map(|m| (t, m))) {
-            fail = Some(Outcome::Panic(t, msg));
-        } else if let Some(st) = s.stale.clone() {
-            fail = Some(Outcome::Stale(st));
-        }
-        let mut mask = 0u8;
-        let mut unfinished = 0;
-        if fail.is_none() {
-            for t in 0..n {
-                match s.threads[t].state {
-                    TState::Parked(Point::Lock { probe, .. }) => {
-                        unfinished += 1;
-                        // SAFETY: thread t is parked inside the hook callback that owns the closure
-                        if unsafe { (*probe.0)() } {
-                            mask |= 1 << t;
-                        }
-                    }
-                    TState::Parked(Point::Escaped) => {
-                        unfinished += 1;
-                        mask |= 1 << t;
-                    }
-                    TState::Finished => {}
-                    TState::NotStarted | TState::Running => {
-                        fail = Some(Outcome::Diverged(format!("internal: thread T{t} in an impossible state")));
-                    }
-                }
-            }
-        }
-        if fail.is_none() && unfinished == 0 {
-            break;
-        }
-        let lname = |s: &Sched, l: usize| if l == s.shared[0] { "a" } else if l == s.shared[1] { "b" } else { "private" };
-        if fail.is_none() && mask == 0 {
-            // deadlock: every unfinished thread waits for a mutex that is not free
-            let mut blocked = Vec::new();
-            let mut holders = Vec::new();
-            for t in 0..n {
-                if let TState::Parked(Point::Lock { list, .. }) = s.threads[t].state {
-                    let act = s.threads[t].cur_act;
-                    let label = act.map(|a| a.label()).unwrap_or_default();
-                    let held: Vec<&str> = s.threads[t].woken_locks.iter().map(|l| lname(&s, *l)).collect();
-                    blocked.push((t, label.clone(), format!("acquired {held:?} in this operation, waits for {}", lname(&s, list))));
-                    // a thread that waits while it keeps a shared lock is part of the cycle
-                    // (only `==` keeps its first lock while it takes the second)
-                    if matches!(act, Some(Act::Eq { .. })) && !s.threads[t].woken_locks.is_empty() {
-                        holders.push(label);
-                    }
-                }
-            }
-            if holders.is_empty() {
-                holders = blocked.iter().map(|b| b.1.clone()).collect();
-            }
-            holders.sort();
-            fail = Some(Outcome::Deadlock { sig_ops: holders, blocked });
-        }
-        // choose
-        let mut chosen = 0u8;
-        if fail.is_none() {
-            if step < prefix.len() {
-                chosen = prefix[step];
-                if mask & (1 << chosen) == 0 {
-                    fail = Some(Outcome::Diverged(format!("replay diverged at step {step}: T{chosen} not enabled (enabled mask {mask:#b})")));
-                }
-            } else {
-                chosen = match policy {
-                    Policy::Lowest => mask.trailing_zeros() as u8,
-                    Policy::Random(rng) => {
-                        let k = rng.below(mask.count_ones() as u64);
-                        let mut m = mask;
-                        for _ in 0..k {
-                            m &= m - 1;
-                        }
-                        m.trailing_zeros() as u8
-                    }
-                };
-            }
-        }
-        if let Some(f) = fail {
-            out.outcome = f;
-            out.hist = s.hist.clone();
-            out.events = s.events;
-            out.releases = s.releases;
-            out.hazards = s.hazards.clone();
-            match abandon(s) {
-                Ok(leaked) => {
-                    out.leaked = leaked;
-                    for (t, jh) in joins.into_iter().enumerate() {
-                        let is_leaked = lock_sched().threads[t].leaked;
-                        if !is_leaked {
-                            let _ = jh.join();
-                        }
-                    }
-                }
-                Err(why) => watchdog(&mut out, why, joins),
-            }
-            return out;
-        }
-        let c = chosen as usize;
-        let point = match s.threads[c].state {
-            TState::Parked(Point::Lock { list, .. }) => {
-                if list == s.shared[0] {
-                    0
-                } else if list == s.shared[1] {
-                    1
-                } else {
-                    2
-                }
-            }
-            _ => 3,
-        };
-        out.steps.push(Step { mask, chosen, op: s.threads[c].cur_op, point });
-        s.threads[c].state = TState::Running;
-        s.running = Some(c);
-        CV.notify_all();
-        drop(s);
-        step += 1;
+    if matches!(out.outcome, Outcome::Complete) {
+        // every thread has dropped its handles; final observation
+        out.finals = [a.to_vec().iter().map(|e| e.id()).collect(), b.to_vec().iter().map(|e| e.id()).collect()];
     }
-    // complete
-    for jh in joins {
-        let _ = jh.join();
-    }
-    {
-        let s = lock_sched();
-        out.hist = s.hist.clone();
-        out.events = s.events;
-        out.releases = s.releases;
-        out.hazards = s.hazards.clone();
-    }
-    out.finals = [a.to_vec().iter().map(|e| e.id()).collect(), b.to_vec().iter().map(|e| e.id()).collect()];
     out
 }
 
@@ -1123,7 +1273,7 @@ fn model_apply(st: &mut Model, act: &Act) -> Res {
         }
         Act::Contains { obj, v } => Res::Bool(st[obj].contains(&v)),
         Act::Swap { obj, i, j } => {
-            if i < st[obj].len() && j < st[obj].len() {
+            if i < st[obj].len() && j < st[obj].len() && SELFTEST.load(Ordering::Relaxed) != 2 {
                 st[obj].swap(i, j);
             }
             Res::Unit
@@ -1266,6 +1416,11 @@ impl ListSched {
                     prelude.push(Config { elem, init_len, progs: sh.clone(), origin: "prelude" });
                 }
             }
+        }
+        match args.opt("selftest") {
+            Some("hang") => SELFTEST.store(1, Ordering::Relaxed),
+            Some("model") => SELFTEST.store(2, Ordering::Relaxed),
+            _ => {}
         }
         let num = |k: &str, d: u64| args.opt(k).and_then(|v| v.parse().ok()).unwrap_or(d);
         ListSched {
@@ -1439,8 +1594,8 @@ impl ListSched {
         let mut sched_rng = Rng::new(rng.next());
         let process_leak_budget = 1500u64;
         loop {
-            let mut policy = if random_phase { Policy::Random(Rng::new(sched_rng.next())) } else { Policy::Lowest };
-            let r = run_schedule::<E>(cfg, &acts, &fns, if random_phase { &[] } else { &prefix }, &mut policy, self.full_points);
+            let policy = if random_phase { Policy::Random(Rng::new(sched_rng.next())) } else { Policy::Lowest };
+            let r = run_schedule::<E>(cfg, &acts, &fns, if random_phase { &[] } else { &prefix }, policy, self.full_points);
             st.schedules += 1;
             st.steps += r.steps.len() as u64;
             st.events += r.events;
@@ -1494,7 +1649,8 @@ impl ListSched {
                     st.finals.insert(fh);
                     if linearize(&ops, &init, 0).is_none() {
                         st.nonlin += 1;
-                        let (sig, why) = match culprits(&ops, &init) {
+                        // one signature per operation kind whose result cannot be explained
+                        let (sigs, why) = match culprits(&ops, &init) {
                             Some(c) => {
                                 let mut labels: Vec<String> = c.iter().map(|k| ops[*k].act.label()).collect();
                                 labels.sort();
@@ -1511,7 +1667,7 @@ impl ListSched {
                                 muts.sort();
                                 muts.dedup();
                                 (
-                                    format!("not-linearizable@{}", labels.join("+")),
+                                    labels.iter().map(|l| format!("not-linearizable@{l}")).collect::<Vec<_>>(),
                                     format!(
                                         "no linearization explains the result of {} (concurrent mutators: {})",
                                         c.iter().map(|k| format!("T{}.{} {} -> {}", ops[*k].t, ops[*k].i, ops[*k].act.show(), ops[*k].res.show())).collect::<Vec<_>>().join(", "),
@@ -1519,14 +1675,16 @@ impl ListSched {
                                     ),
                                 )
                             }
-                            None => ("not-linearizable@many".to_string(), "no linearization, more than 3 results are unexplained".to_string()),
+                            None => (vec!["not-linearizable@many".to_string()], "no linearization, more than 3 results are unexplained".to_string()),
                         };
-                        if reported.insert(sig.clone()) {
-                            out.viol(
-                                sig,
-                                format!("{why}; config {} (elem {}, init len {})", cfg.text(), cfg.elem.name(), cfg.init_len),
-                                detail(&r).set("final_a", format!("{:?}", r.finals[0])).set("final_b", format!("{:?}", r.finals[1])),
-                            );
+                        for sig in sigs {
+                            if reported.insert(sig.clone()) {
+                                out.viol(
+                                    sig,
+                                    format!("{why}; config {} (elem {}, init len {})", cfg.text(), cfg.elem.name(), cfg.init_len),
+                                    detail(&r).set("final_a", format!("{:?}", r.finals[0])).set("final_b", format!("{:?}", r.finals[1])),
+                                );
+                            }
                         }
                     }
                 }
@@ -1674,7 +1832,10 @@ impl ListSched {
 
 impl Family for ListSched {
     fn n_cases(&self, args: &Args) -> u64 {
-        if args.thorough() { self.prelude.len() as u64 + 24_000 } else { self.prelude.len() as u64 + 2_400 }
+        // the whole 2 x <=2 enumeration is covered by prelude + ceil(4/3 * n_enum) cases
+        // (`--cases 162500`); the defaults are prefixes of the same strided order
+        let _full = self.prelude.len() as u64 + self.n_enum().div_ceil(3) * 4;
+        if args.thorough() { self.prelude.len() as u64 + 60_000 } else { self.prelude.len() as u64 + 6_000 }
     }
 
     fn run(&mut self, k: u64, rng: &mut Rng, _args: &Args) -> CaseOut {
